@@ -51,13 +51,18 @@ def run(pid, what, seed, ctx, nseq=400, length=60):
     for line in out.strip().split('\n'):
         res, fin = line.rsplit(' | ', 1)
         results = [[int(x) for x in t.split()] for t in res.split(' ; ')] if res.strip() else []
-        bits = sum(1 << i for i, f_ in enumerate(FIELDS) if re.search(r'\b%s: true' % f_, fin))
+        mm = re.search(r'modifiers: Modifiers \{([^}]*)\}', fin)
+        mods = mm.group(1) if mm else fin
+        bits = sum(1 << i for i, f_ in enumerate(FIELDS) if re.search(r'\b%s: true' % f_, mods))
         hc = re.search(r'handle_ctrl: (\w+)', fin)
         rust.append((results, [bits, en['HandleControl'].index(hc.group(1)) if hc else 99]))
     # the abstract decoder, in Coq
     cdir = os.path.join(ctx.COQ, 'SeqCases')
     os.makedirs(cdir, exist_ok=True)
-    src = ["From Coq Require Import NArith Bool List String.\nFrom PK Require Import Base.Outcome Gen.Types Impl Spec.Event Check.Ev Seq.\nImport ListNotations.\nLocal Open Scope N_scope.\n",
+    src = ["From Coq Require Import NArith Bool List String.\nFrom PK Require Import Base.Outcome Gen.Types Impl Spec.Mods Check.EvImpl.\nImport ListNotations.\nLocal Open Scope N_scope.\n",
+           "Definition mode_of (i : N) : HandleControl := match i with 0 => HandleControl_MapLettersToUnicode | _ => HandleControl_Ignore end.\n",
+           "Definition key_of (i : N) : KeyCode := match KeyCode_of_tag i with Some k => k | None => KeyCode_Escape end.\n",
+           "Definition kstate_of (i : N) : KeyState := match KeyState_of_tag i with Some s => s | None => KeyState_Up end.\n",
            "Definition enc_r (r : ev_res) : list N := match r with ERNone => [1] | ERRaw k => [2; KeyCode_tag k] | ERCons k m hc => [3; KeyCode_tag k; bits_of_mods m; HandleControl_tag hc] | EROther c => [4; c] end.\n",
            "Definition go (mode : N) (ops : list eop) := let '(s, rs) := spec_run (initial_mods, mode_of mode) ops in (map enc_r rs, [bits_of_mods (fst s); HandleControl_tag (snd s)]).\n"]
     for i, (mode, ops) in enumerate(seqs):
